@@ -791,7 +791,7 @@ class Scripts:
                 if behaviour == 'stay':
                     self.emit('set_opmod 1 %d' % mod)
 
-    def tx_schedule(self, total):
+    def tx_schedule(self, total, faulty=False):
         """consumption by the modulator and handler invocations until the frame of `total`
         bytes (already queued: the first min(64,total) bytes are in the FIFO) has left the chip;
         a reference model of the refill keeps the schedule admissible"""
@@ -817,6 +817,9 @@ class Scripts:
                 k = r.randint(1, min(2, room))
                 for ix in sorted(r.randint(1, 4) for _ in range(k)):
                     inh += ' @%d txshift' % ix
+            if faulty and r.random() < 0.4:
+                # an invocation in which a transfer fails hands nothing over
+                self.emit('irq !%d=%d' % (r.randint(0, 2), r.choice([1, 0x101])))
             self.emit('irq' + inh)
             if occ <= 31 and written < total:
                 w = min(30, total - written)
@@ -829,6 +832,84 @@ class Scripts:
                     w = min(30, total - written)
                     occ += w
                     written += w
+
+    def fsk_fault(self, n):
+        """C11, FSK/OOK packet paths: one or two failing transfers inside handler invocations of a
+        reception or a transmission (and in the call that queues a packet), followed by fault-free
+        traffic.  A failing transfer does not reach the chip.  The schedule keeps an upper bound of
+        the FIFO occupancy so that it stays admissible whatever the failed invocation consumed."""
+        r = self.rnd
+        codes = [1, 0x101, 0x107]
+        def fault(maxidx=7):
+            t = ' !%d=%d' % (r.randint(0, maxidx), r.choice(codes))
+            if r.random() < 0.3:
+                t += ' !%d=%d' % (r.randint(0, maxidx), r.choice(codes))
+            return t
+        for _ in range(n):
+            mod = r.choice([FSK, OOK])
+            self.begin('fskfault', 'mod=%x' % mod)
+            self.prologue(mod, rand_chip=r.random() < 0.5)
+            variable = r.random() < 0.6
+            crc = r.choice([0x08, 0x18])
+            filt = r.choice([0, 0, 2, 4])
+            self.emit('fsk_ook_set_crc %d' % crc)
+            self.emit('fsk_ook_set_address_filtering %d 17 255' % filt)
+            fixed_len = r.choice([2, 20, 40, 64, 65, 100, 180])
+            if variable:
+                self.emit('fsk_ook_set_packet_format 0x80 255')
+            else:
+                self.emit('fsk_ook_set_packet_format 0 %d' % fixed_len)
+            if r.random() < 0.7:
+                # reception: faulted packet, then fault-free packets
+                self.emit('set_opmod 5 %d' % mod)
+                for pk in range(r.randint(2, 4)):
+                    faulty = pk % 2 == 0
+                    plen = r.choice([1, 5, 28, 29, 30, 31, 40, 61, 62, 63, 64, 90, 150, r.randint(1, 200)]) if variable else fixed_len - (1 if filt else 0)
+                    payload = [r.randint(0, 255) for _ in range(plen)]
+                    frame = self.fsk_frame(variable, 17 if filt else None, payload)
+                    nfr = len(frame)
+                    pos, occ, rem = 0, 0, plen
+                    while pos < nfr:
+                        burst = max(1, min(nfr - pos, 45 - occ))
+                        for i in range(burst):
+                            self.emit('env rxbyte %d' % frame[pos + i])
+                        pos += burst
+                        occ += burst
+                        if pos >= nfr:
+                            break
+                        if faulty and r.random() < 0.6:
+                            self.emit('irq' + fault())
+                        self.emit('irq')
+                        if rem > 29:
+                            occ -= 29
+                            rem -= 29
+                        else:
+                            occ, rem = 0, 0
+                    self.emit('env rxend 1')
+                    if faulty and r.random() < 0.8:
+                        self.emit('irq' + fault())
+                    self.emit('irq')
+                    self.emit('irq')
+                    self.emit('#= %s %s' % ('fskfault' if faulty else 'fskrx 1', ''.join('%02x' % b for b in payload) or '-'))
+            else:
+                self.emit('set_opmod 1 %d' % mod)
+                for pk in range(2):
+                    mx = 255 if variable else 2047
+                    plen = r.choice([1, 30, 63, 64, 65, 100, 200, r.randint(1, mx)])
+                    payload = [r.randint(0, 255) for _ in range(plen)]
+                    hexp = ''.join('%02x' % b for b in payload)
+                    frame = self.fsk_frame(variable, None, payload)
+                    self.emit('write_register 0x3f 0x10')
+                    self.emit('set_opmod 3 %d' % mod)
+                    self.emit('oncb tx set_opmod 1 %d' % mod)
+                    self.emit('#= fsktx_begin')
+                    if pk == 0:
+                        self.emit('fsk_ook_tx_set_for_transmission %s !0=%d' % (hexp, r.choice(codes)))
+                        self.emit('#= failed')
+                    self.emit('fsk_ook_tx_set_for_transmission %s' % hexp)
+                    self.tx_schedule(len(frame), faulty=(pk == 0))
+                    self.emit('env chip f 0x3f 0')
+                    self.emit('#= fsktx_end 1 %s' % ''.join('%02x' % b for b in frame))
 
     def floats(self, n):
         """C12: numeric setters / getters on step boundaries and random values"""
